@@ -1,6 +1,7 @@
 package galaxysim
 
 import (
+	"encoding/json"
 	"fmt"
 	"net"
 	"strings"
@@ -32,8 +33,11 @@ type c13Case struct {
 	PrefixLen2 int    `json:"prefix_len2"`
 	GwOff2     uint32 `json:"gw_off2"`
 	Vlan2      uint16 `json:"vlan2"`
-	Kind      string   `json:"kind"`    // sts | dp
-	TwoNets   bool     `json:"two_nets"`
+	Kind       string `json:"kind"` // sts | dp
+	TwoNets    bool   `json:"two_nets"`
+	// the pod was created from the manifest of a pod bound earlier: its args annotation already carries common.ipinfos (an address
+	// IPAM never gave to THIS pod)
+	Carried bool `json:"carried,omitempty"`
 }
 
 func genC13() *rapid.Generator[c13Case] {
@@ -71,6 +75,7 @@ func genC13() *rapid.Generator[c13Case] {
 		c.Vlan2 = uint16(rapid.IntRange(0, 4094).Draw(t, "vlan2"))
 		c.Kind = rapid.SampledFrom([]string{"sts", "dp"}).Draw(t, "kind")
 		c.TwoNets = rapid.Bool().Draw(t, "twoNets")
+		c.Carried = rapid.IntRange(0, 3).Draw(t, "carried") == 0
 		return c
 	})
 }
@@ -130,6 +135,24 @@ func checkC13(c c13Case, r *vcore.Rec) *vcore.Failure {
 	}
 	w := x.W
 	pod := w.CreatePod(0, &hc.WLs[0], hc.WLs[0].PodName(0))
+	if c.Carried {
+		tp := w.TruthPod(pod.Name).DeepCopy()
+		var m map[string]interface{}
+		if a := tp.Annotations[constant.ExtendedCNIArgsAnnotation]; a != "" {
+			_ = json.Unmarshal([]byte(a), &m)
+		}
+		if m == nil {
+			m = map[string]interface{}{}
+		}
+		m["common"] = map[string]interface{}{"ipinfos": []map[string]interface{}{{"ip": "10.250.9.9/24", "vlan": 9, "gateway": "10.250.9.1"}}}
+		data, _ := json.Marshal(m)
+		if tp.Annotations == nil {
+			tp.Annotations = map[string]string{}
+		}
+		tp.Annotations[constant.ExtendedCNIArgsAnnotation] = string(data)
+		w.InjectPod(tp)
+		r.Class("pod_carries_ipinfos_before_bind")
+	}
 	nodes, _, ferr, _ := w.Filter(pod.Name, []string{"n0"})
 	if ferr != nil || len(nodes) != 1 {
 		return vcore.Failf("c13:filter", "filter failed on a satisfiable request: nodes=%v err=%v config=%s", nodes, ferr, topo.ConfigText())
